@@ -117,7 +117,7 @@ theorem execH_refines (op : HOp) (f : FileH) (d : Dev) (h : SimInv f d) (hok : O
         exact ⟨⟨hfa, hwf, hg, hrep⟩, trivial, hchk⟩
   | write bs =>
     obtain ⟨hbytes, hno⟩ := hok
-    obtain ⟨k, f', d', hr, hs, hres, _, hcore, hrep', _, _⟩ :=
+    obtain ⟨k, f', d', hr, hs, hres, _, hcore, hrep', _, _, _⟩ :=
       write_sim_noalloc noAlloc (tabView d.fs d.img) f bs d hfa hg hrep hwf hbytes hno
     simp only [execH, hr, HOp.toOp]
     refine ⟨⟨by rw [hs.failAt]; exact hfa, hs.wf hwf, by rw [hs.size]; exact hg.frame hs.geom, hrep'⟩,
